@@ -183,6 +183,30 @@ def run(ck: Check):
         g = next(x for x in goals if x[0] == lab)
         ck.disagree("largest learnable threshold is not within 1e-4 of the Coq model (interval lemma fails)", g[4], observed=g[2],
                     signature={"what": "threshold-formula"})
+    # integer-valued images stored in integer / half / double dtypes give the code of the float32 image (soft and frozen)
+    from torchlogix.layers import LearnableThermometerThresholding as LTT
+    torch.manual_seed(ck.seed + 3)
+    for rank in (3, 4):
+        t = LTT(init_thresholds=[10.0, 50.0, 120.0, 200.0])
+        x = torch.randint(0, 256, (2, 4, 4) if rank == 3 else (2, 1, 4, 4))
+        x.reshape(-1)[:4] = torch.tensor([10, 50, 120, 200])       # exactly on the thresholds
+        for frozen in (False, True):
+            if frozen:
+                t.freeze_thresholds()
+            with torch.no_grad():
+                ref = t(x.float())
+            for dt in (torch.uint8, torch.int16, torch.int32, torch.int64, torch.float64, torch.float16):
+                ck.case({"kind": "dtype", "rank": rank, "frozen": frozen, "dtype": str(dt)}, kind="dtype-variant")
+                try:
+                    with torch.no_grad():
+                        y = t(x.to(dt))
+                except Exception:
+                    ck.count("dtype_variant_rejected")
+                    continue
+                if tuple(y.shape) != tuple(ref.shape) or float((y.double() - ref.double()).abs().max()) > 1e-3:
+                    ck.disagree("thermometer code of an integer-valued image depends on the dtype it is stored in",
+                                {"rank": rank, "frozen": frozen, "dtype": str(dt)}, signature={"what": "dtype"})
+                ck.count("dtype_variant_checks")
     return ck.finish()
 
 
